@@ -7,6 +7,11 @@ ALL = [f"C{i:02d}" for i in range(1, 21)]
 HOOK_COMMITS = subprocess.run(["git", "-C", "/repo", "log", "--format=%h %s", "--grep", "^verif hook"], capture_output=True, text=True).stdout.strip().splitlines()
 
 CHECKS = {
+ "C08": dict(
+   category="exploration", design="DESIGN.md §4 C08",
+   technique="generated and enumerated (depth<=2 over a 10-leaf alphabet) filter expressions and stack shapes; metamorphic oracle: cached path (summary) vs the implementation's own uncached dynamic decision on 60 static metadata x 6 span contexts",
+   text="For each generated stack (layer trees with Filtered/Layered/Vec/Option/Box/Identity/reload nodes and global filter layers anywhere; filters over level, targets, env tables, raw env directives incl. span-scoped ones, closures with true upper-bound hints, Option, Arc, reload, and/or/not) every one of 60 static Metadata is queried in 6 span contexts through Dispatch::enabled + direct dispatch, bypassing the macro caches. never => no layer receives it; always => enabled() is true and skipping enabled() (what the macro does) delivers to exactly the same layers; level above the published hint => no layer receives it. Depth<=1 (quick) / depth<=2 (thorough) expressions over a fixed alphabet are enumerated completely for two shapes.",
+   note="Implementation-relative: the dynamic decision is the code's own; filter semantics themselves are C07/C11. Open finding F8 (EnvFilter span-scoped directive below the span's level) is excluded per (directive, metadata) and reported from a committed reproducer. Found and fixed F6/F17/F18."),
  "C07": dict(
    category="exploration", design="DESIGN.md §4 C07",
    technique="proptest-generated (stack shape, filter expressions, macro workload) cases in a fresh child process; per-leaf delivery, lookup_current and scope compared with a reference evaluator of the filters on the model's filtered view",
